@@ -39,7 +39,10 @@ def main():
         got, crashes = MC.real_eval('score', req)
         for idx, rc, err in crashes:
             V.violation(f'crash:{label}:{cases[idx]["y"]}|{cases[idx]["x"]}', f'estimator died ({E.signal_name(rc)})', cases[idx])
-        sub = [i for i in range(len(cases)) if rng.random() < (0.1 if tier == 'quick' else 0.3)]
+        # through the dispatcher by heuristic name: a random sample, plus every self pair and every pair with an all-distinct
+        # or constant feature (the statement's corollaries must hold on this path too)
+        special = lambda c_: c_['y'] == c_['x'] or len(set(c_['y'])) in (1, len(c_['y']))
+        sub = [i for i in range(len(cases)) if special(cases[i]) or rng.random() < (0.1 if tier == 'quick' else 0.3)]
         got_name, crashes_n = MC.real_eval('numba_mi', [[cases[i]['y'], cases[i]['x'], 'MI-numba-randomized', 1.0] for i in sub])
         nontriv = 0
         for c, s in zip(cases, got):
@@ -79,12 +82,15 @@ def main():
         big.append(('constant', n, [7] * n, tgt))
         big.append(('high-card-target', n, [rng.randrange(4) for _ in range(n)], [rng.randrange(min(n // 4, 800)) for _ in range(n)]))
         big.append(('self', n, tgt, list(tgt)))
+        ident = rng.sample(range(n), n)
+        big.append(('identifier-self', n, ident, list(ident)))
     got, crashes = MC.real_eval('score', [[y, x, 1.0, True] for _, _, y, x in big], stride=True)
-    for (nm, n, y, x), s in zip(big, got):
+    got_d, _ = MC.real_eval('numba_mi', [[y, x, 'MI-numba-randomized', 1.0] for _, _, y, x in big], stride=True)
+    for (nm, n, y, x), s in zip(big + [(nm_ + ':by-name', n_, y_, x_) for nm_, n_, y_, x_ in big], list(got) + list(got_d)):
         e = O.value(O.spec_score(y, x, True), n)
         if s is None or not (abs(s - e) <= MC.tol(e, O.entropy(y))):
             V.violation(f'large:{nm}:n={n}', f'score {s!r} != specified {e!r}', {'family': nm, 'n': n, 'seed': seed})
-    V.count(evaluations=len(big), nontrivial=len(big) - 2, traces=len(big))
+    V.count(evaluations=2 * len(big), nontrivial=2 * len(big) - 4, traces=2 * len(big))
 
     # ranking corollary
     seeds = range(seed * 1000, seed * 1000 + (12 if tier == 'quick' else 300))
